@@ -50,30 +50,42 @@ type command struct {
 // When we find a successful result, we decrement *ctr.
 func workerSearch(results []interface{}, ctrChanged chan<- struct{}, f func(int) interface{}, ctr *int64) {
 	for atomic.LoadInt64(ctr) > 0 {
+		verifYield("ws_run")
 		res := f(0)
 		if res == nil {
+			verifYield("ws_check")
 			continue
 		}
+		verifYield("ws_dec")
 		i := atomic.AddInt64(ctr, -1)
 		// Only the workers that claimed a slot report back, and only once the result is visible,
 		// so that the caller receives exactly one notification per requested result.
 		if i >= 0 {
+			verifYield("ws_write")
 			results[i] = res
+			verifYield("ws_notify")
 			ctrChanged <- struct{}{}
 		}
+		verifYield("ws_check")
 	}
 }
 
 // worker starts up a new worker, listening to commands, and producing results
 func worker(commands <-chan command) {
+	verifYield("w_idle")
 	for c := range commands {
 		if c.search {
+			verifYield("ws_check")
 			workerSearch(c.results, c.ctrChanged, c.f, c.ctr)
 		} else {
+			verifYield("w_run")
 			c.results[c.i] = c.f(c.i)
+			verifYield("w_dec")
 			atomic.AddInt64(c.ctr, -1)
+			verifYield("w_notify")
 			c.ctrChanged <- struct{}{}
 		}
+		verifYield("w_idle")
 	}
 }
 
@@ -150,6 +162,7 @@ func (p *Pool) Search(count int, f func() interface{}) []interface{} {
 	// otherwise the worker sending it would stay blocked forever.
 	done := 0
 	for cmdI < p.workerCount {
+		verifYield("c_select")
 		select {
 		case p.commands <- cmd:
 			cmdI++
@@ -158,8 +171,10 @@ func (p *Pool) Search(count int, f func() interface{}) []interface{} {
 		}
 	}
 	for ; done < count; done++ {
+		verifYield("c_wait")
 		<-ctrChanged
 	}
+	verifYield("c_return")
 
 	return results
 }
@@ -190,6 +205,7 @@ func (p *Pool) Parallelize(count int, f func(int) interface{}) []interface{} {
 		// We won't be able to send all the commands without blocking, so we make
 		// sure to interleave picking off the results of workers to free them up
 		// to receive our commands
+		verifYield("c_select")
 		select {
 		case p.commands <- cmd:
 			cmdI++
@@ -200,8 +216,10 @@ func (p *Pool) Parallelize(count int, f func(int) interface{}) []interface{} {
 	// Each task sends exactly one notification, and every one of them must be consumed,
 	// otherwise the worker sending it would stay blocked forever.
 	for ; done < count; done++ {
+		verifYield("c_wait")
 		<-ctrChanged
 	}
+	verifYield("c_return")
 
 	return results
 }
